@@ -11,6 +11,7 @@ import (
 // VerifMapIterator args: items L, parallelism, bufferSize
 //verif:case C14 quick VerifMapIterator 0..2 1 0..1
 //verif:case C14 quick VerifMapIterator 1..2 2 0
+//verif:case C14 quick VerifMapIterator 1 -1..0 -1..0
 //verif:case C14 thorough VerifMapIterator 3 1..2 0..2
 //verif:case C14 thorough VerifMapIterator 4 2 0
 //verif:case C14 thorough VerifMapIterator 2 -1 0
@@ -19,6 +20,7 @@ import (
 //verif:case C14,C08,C09 quick VerifMapStream 0..1 1 0..1 0..4
 //verif:case C14,C08,C09 quick VerifMapStream 2 1 0 0,2,3
 //verif:case C14,C08,C09 quick VerifMapStream 1 2 0 0,2
+//verif:case C14,C08,C09 quick VerifMapStream 1 -1..0 -1..0 0
 //verif:case C14,C08,C09 thorough VerifMapStream 2 1 0..1 1,4
 //verif:case C14,C08,C09 thorough VerifMapStream 1 2 0 1,3,4
 //verif:case C14,C08,C09 thorough VerifMapStream 3 1 0 0,2
@@ -141,6 +143,9 @@ func VerifMapStream(L int, par int, buf int, fault int) {
 	Esrc := errors.New("source error")
 	Ef := errors.New("f error")
 	effPar := par
+	if par <= 0 {
+		effPar = 2 // GOMAXPROCS is at most 2 in the model
+	}
 	b := buf
 	if b < 0 {
 		b = 0
